@@ -12,6 +12,7 @@ CONSTANTS
   BUNDLE = {"lim"}
   STALL = {}
   LateResponseOK = TRUE
+  NoTimeout = FALSE
 INVARIANTS TypeOK
 PROPERTIES Answers
 CHECK_DEADLOCK FALSE
